@@ -4,6 +4,8 @@ package c11
 import (
 	"encoding/base64"
 	"fmt"
+	"github.com/scrapli/scrapligo/channel"
+	"github.com/scrapli/scrapligo/driver/opoptions"
 	"net/url"
 	"strconv"
 	"strings"
@@ -148,7 +150,7 @@ func genEsc(t *rapid.T) EscCase {
 		NLoggers:    rapid.IntRange(1, 3).Draw(t, "nLoggers"),
 		Plan:        sim.GenCutPlan(t),
 		ReadDelayNS: int64(rapid.SampledFrom([]time.Duration{20 * time.Microsecond, 250 * time.Microsecond}).Draw(t, "readDelay")),
-		Op:          rapid.SampledFrom([]string{"acquire", "command", "configs"}).Draw(t, "op"),
+		Op:          rapid.SampledFrom([]string{"acquire", "command", "configs", "user-interactive", "user-interactive-generic"}).Draw(t, "op"),
 
 		WriteFailAfter: rapid.SampledFrom([]int{-1, -1, -1, 0, 1, 2, 3, 4, 5, 6}).Draw(t, "writeFailAfter"),
 
@@ -272,6 +274,18 @@ func runEsc(c EscCase) ev.Verdict {
 			operr = d.AcquirePriv("enable")
 		case "command":
 			_, operr = d.SendCommand("show version Q")
+		case "user-interactive", "user-interactive-generic":
+			// the user drives the dialogue by hand, the secret in an event marked to be hidden
+			events := []*channel.SendInteractiveEvent{
+				{ChannelInput: "enable", ChannelResponse: "Password:"},
+				{ChannelInput: c.Secret, HideInput: true},
+			}
+
+			if c.Op == "user-interactive" {
+				_, operr = d.SendInteractive(events, opoptions.WithPrivilegeLevel("exec"))
+			} else {
+				_, operr = d.Driver.SendInteractive(events)
+			}
 		default:
 			_, operr = d.SendConfigs([]string{"hostname core1 Q"})
 		}
